@@ -80,7 +80,9 @@ def ob_closure(c, v, rrn, rrno, rnt, rnto):
     if c["name"] in AMBIGUOUS and not rnt:
         return True, "statement silent: closure is stated for named-type reporting"
     try:
-        d = shape.build(c["ir"], c["names"], v, c["cfg"])
+        # ambiguous named branches: the first write names its branch with a (name, value) hint, otherwise the later
+        # of two branches accepting the same value could never be written
+        d = shape.build(c["ir"], c["names"], v, c["cfg"], hints=shape.Hints((1, 1, 1)) if c["name"] in AMBIGUOUS else None)
     except OutOfDomain:
         return True, "out of domain"
     fo = rt.new_io()
